@@ -74,9 +74,8 @@ package store
 // SaveBlock: parts first, then meta, hash index, commit for the previous height, seen commit, and only then the
 // descriptor. The on-disk state is consistent before every single write (crash points) and at return.
 //@ func BlockStore.SaveBlock
-//@   requires inv: contigDisk(bs) && memDesc(bs)
+//@   maintains inv: contigDisk(bs) && memDesc(bs)
 //@   requires args: block != nil && blockParts != nil && seenCommit != nil && block.LastCommit != nil && block.Header.Height >= 1
-//@   ensures inv: contigDisk(bs) && memDesc(bs)
 //@   ensures tip: pHeight == block.Header.Height
 //@   atcall DB.Set crash: contigDisk(bs)
 //@   atcall DB.Set partsfirst: forall(p, 0, blockParts.total, dbhas(bs.db, calcBlockPartKey(block.Header.Height, p)))
